@@ -232,15 +232,18 @@ class Container:
         raise NotImplementedError
 
     def _checkForCrossReferences(self, memo=None):
-        if not self._checkedForCrossReferences:
-            if memo is None:
-                memo = set()
-            if any(x is self for x in memo):
-                raise ContainerException(f"cannot fill a tree that contains the same aggregator twice: {self}")
-            memo.add(self)
-            for child in self.children:
+        if memo is None:
+            if self._checkedForCrossReferences:
+                return
+            memo = []
+        if any(x is self for x in memo):
+            raise ContainerException(f"cannot fill a tree that contains the same aggregator twice: {self}")
+        memo.append(self)
+        template = self.__dict__.get("value")
+        for child in self.children:
+            if child is not template:
                 child._checkForCrossReferences(memo)
-            self._checkedForCrossReferences = True
+        self._checkedForCrossReferences = True
 
     def toJsonFile(self, fileName):
         path = Path(fileName)
